@@ -23,14 +23,14 @@ GenNext ==
         \/ \E a \in Accts : Unregister(a)
         \/ \E t \in Targets : Disqualify(t)
         \/ \E a \in Accts, r \in 0..1 : Claim(a, r)
-        \/ \E p \in Periods : EndBlock(p)
+        \/ \E p \in Periods, rs \in BOOLEAN : EndBlock(p, rs)
 GenSpec == Init /\ [][GenNext]_vars
 
 (* Stake/unstake slice: only effective SetStake calls and block ends; enumerated exhaustively (BFS)
    for one account, it contains every short history of unstake slots and their timers. *)
 SliceNext ==
         \/ \E a \in Accts, v \in 0..MaxAmt : v # stake[a] /\ SetStake(a, v)
-        \/ \E p \in Periods : EndBlock(p)
+        \/ \E p \in Periods : EndBlock(p, h % 2 = 1)        \* restart from the database after every odd block
 SliceSpec == Init /\ [][SliceNext]_vars
 
 (* Bond/unbond slice: stake once, then only effective SetBond calls (bond, partial and full
@@ -44,7 +44,7 @@ BondSliceNext ==
               /\ SetBond(a, b)
         \/ \E a \in Accts, d \in Vecs : stake[a] > 0 /\ d # deleg[a] /\ SumVec(d) <= 1 /\ SetDelegation(a, d)
         \/ \E t \in Targets : HasBase(t) /\ Active(t) /\ Disqualify(t)
-        \/ \E p \in Periods : EndBlock(p)
+        \/ \E p \in Periods, rs \in BOOLEAN : EndBlock(p, rs)
 BondSliceSpec == Init /\ [][BondSliceNext]_vars
 
 (* Coinciding timers: every account stakes, then only bonds to external P-Reps, unbonding, stake
@@ -65,7 +65,7 @@ CoinNext ==
               /\ h \in {1, 2} /\ b # bond[a] /\ (\A t \in Targets : b[t] <= bond[a][t]) = TRUE
               /\ SetBond(a, b)
         \/ \E a \in Accts, v \in 0..MaxAmt : h \in {1, 2} /\ v < stake[a] /\ v >= Using(a) /\ SetStake(a, v)
-        \/ \E p \in Periods : AllStaked /\ EndBlock(p)
+        \/ \E p \in Periods, rs \in BOOLEAN : AllStaked /\ EndBlock(p, rs)
 CoinSpec == Init /\ [][CoinNext]_vars
 CoinSeen == \E i \in 1..(Len(hist) - 1) : hist[i].op = "end" /\ hist[i].coin.any
 EmitCoin == (Len(hist) = Depth /\ hist[Len(hist)].op = "end" /\ CoinSeen) => PrintT(<<"B", ToJson(hist)>>)
